@@ -109,6 +109,11 @@ E("selectusingcontext_first", 1, lambda S: etl.selectusingcontext(S[0], lambda p
 E("search_flags", 1, lambda S: etl.search(S[0], "s", "X", flags=2), "stream rect")
 E("rowlenselect_complement", 1, lambda S: etl.rowlenselect(S[0], 4, complement=True), "stream")
 E("fieldmap_errorvalue", 1, lambda S: etl.fieldmap(S[0], collections.OrderedDict([("q", ("v", lambda v: 1 / v))]), errorvalue="E"), "stream")
+# converters / mappers that fail on some cells, the policy left to petl.config.failonerror (read when the view is BUILT)
+E("convert_failing", 1, lambda S: etl.convert(S[0], "v", lambda v: 1 / v), "stream")
+E("fieldmap_failing", 1, lambda S: etl.fieldmap(S[0], collections.OrderedDict([("k", "k"), ("q", ("v", lambda v: 1 / v))])), "stream")
+E("rowmap_failing", 1, lambda S: etl.rowmap(S[0], lambda r: [r["k"], 1 / r["v"]], ["k", "q"]), "stream")
+E("rowmapmany_failing", 1, lambda S: etl.rowmapmany(S[0], lambda r: iter([[r["k"], 0], [r["k"], 1 / r["v"]]]), ["k", "q"]), "stream")
 E("rowmap_failonerror_false", 1, lambda S: etl.rowmap(S[0], lambda r: [1 / r["v"]], ["q"], failonerror=False), "stream")
 E("distinct_count_none", 1, lambda S, **kw: etl.distinct(S[0], count="n", **kw), "sorted presorted rect", presort=None)
 E("conflicts_args", 1, lambda S, **kw: etl.conflicts(S[0], "k", missing=0, exclude="s", **kw), "sorted presorted rect", presort="k")
